@@ -52,6 +52,8 @@ pub use function::FunctionBody;
 pub use names::Name;
 pub use qualified_names::QualifiedName;
 pub use scope::Scope;
+#[cfg(dmntk_verif)]
+pub use scope::verif as scope_verif;
 pub use strings::ToFeelString;
 pub use temporal::date::FeelDate;
 pub use temporal::dt_duration::FeelDaysAndTimeDuration;
